@@ -656,6 +656,9 @@ func (node *mastNode) xcopy() *mastNode {
 }
 
 func (m *Mast) checkRoot(ctx context.Context) error {
+	if m.root == nil {
+		return nil
+	}
 	node, err := m.load(ctx, m.root)
 	if err != nil {
 		return fmt.Errorf("load: %w", err)
